@@ -485,3 +485,104 @@ func unbox(v ssa.Value) ssa.Value {
 	}
 	return v
 }
+
+// ---------------------------------------------------------------------------
+// R-DCG-CBODY-TESTED (C17; added after seed C17f): the DCG translator has a general body translator (anything:
+// a variable becomes phrase/3, a non-terminal gets the hidden arguments, a control construct is translated) and
+// a control-only one that answers with a sentinel error for everything else - which only the general one knows
+// how to take.  Outside the general translator the control-only one may be applied only to the operand that has
+// just been TESTED to be a control construct (`If -> Then` on the left of `;`): the term it is given is the
+// same slice element whose Functor() was compared with '->'.  Applied to an untested operand (the else-part),
+// the sentinel escapes: ( a -> b | t ) is stored as a call of '|'/4.
+func ruleDCGCBodyTested(c *Ctx, r *Report) {
+	const rule = "R-DCG-CBODY-TESTED"
+	desc := "the control-only DCG translator is applied only to an operand that was tested to be a control construct"
+	cbody, body := c.fn("dcgCBody"), c.fn("dcgBody")
+	then := c.global("atomThen")
+	if cbody == nil || body == nil || then == nil {
+		r.undecided(rule, "anchor:dcgCBody/dcgBody/atomThen", "-", "locate the translators", "not found")
+		return
+	}
+	elemOf := func(v ssa.Value) (ssa.Value, int64, bool) {
+		for _, l := range c.originSet(v) {
+			ld, ok := l.(*ssa.UnOp)
+			if !ok || ld.Op != token.MUL {
+				continue
+			}
+			ia, ok := ld.X.(*ssa.IndexAddr)
+			if !ok {
+				continue
+			}
+			if k, ok := constInt(ia.Index); ok {
+				return ia.X, k, true
+			}
+		}
+		return nil, 0, false
+	}
+	n := 0
+	for _, fn := range c.LibFuncs() {
+		if funcPkg(fn) != c.Engine || fn == body {
+			continue
+		}
+		// the operands tested against '->' in this function
+		type el struct {
+			base ssa.Value
+			idx  int64
+		}
+		tested := map[el]bool{}
+		eachInstr(fn, func(in ssa.Instruction) {
+			bo, ok := in.(*ssa.BinOp)
+			if !ok || (bo.Op != token.EQL && bo.Op != token.NEQ) {
+				return
+			}
+			for _, pair := range [][2]ssa.Value{{bo.X, bo.Y}, {bo.Y, bo.X}} {
+				ld, ok := pair[1].(*ssa.UnOp)
+				if !ok || ld.X != ssa.Value(then) {
+					continue
+				}
+				fc, ok := pair[0].(*ssa.Call)
+				if !ok || !fc.Call.IsInvoke() || fc.Call.Method.Name() != "Functor" {
+					continue
+				}
+				// Functor() of Resolve(args[i])
+				for _, l := range c.originSet(fc.Call.Value) {
+					if rc, _ := callOfValue(l); rc != nil && len(rc.Call.Args) == 2 {
+						if b, i, ok := elemOf(rc.Call.Args[1]); ok {
+							tested[el{b, i}] = true
+						}
+					}
+				}
+			}
+		})
+		k := 0
+		eachInstr(fn, func(in ssa.Instruction) {
+			call, ok := in.(*ssa.Call)
+			if !ok || call.Call.IsInvoke() || len(call.Call.Args) < 1 {
+				return
+			}
+			may := call.Call.StaticCallee() == cbody
+			if !may {
+				for _, l := range c.originSet(call.Call.Value) {
+					if f, ok := l.(*ssa.Function); ok && f == cbody {
+						may = true
+					}
+				}
+			}
+			if !may {
+				return
+			}
+			n++
+			k++
+			key := fmt.Sprintf("%s/dcgCBody-call#%d", fname(fn), k)
+			b, i, ok := elemOf(call.Call.Args[0])
+			if ok && tested[el{b, i}] {
+				r.ok(rule, key, c.at(in), desc, fmt.Sprintf("applied to operand %d, whose functor is compared with '->' in this function", i), true)
+			} else {
+				r.bad(rule, key, c.at(in), desc, "the control-only translator may be applied here to an operand that was not tested: for a plain non-terminal or a variable its sentinel error escapes to the enclosing translation, which then takes the whole construct for a non-terminal")
+			}
+		})
+	}
+	if n == 0 {
+		r.info(rule, "scan/calls", "-", desc, "the control-only translator is called from the general one only")
+	}
+}
